@@ -250,8 +250,10 @@ def run_property(pid, tier="quick", seed=0, verbose=False):
     ev = dict(property_id=pid, tier=tier, seed=seed, level=level, coverage=cov,
               assumptions=spec.get("assumptions", []) + sorted({a for c in contracts for a in c.assumptions}),
               wall_s=wall, violations=violations)
-    os.makedirs(os.path.join(VERIF, "evidence"), exist_ok=True)
-    json.dump(ev, open(os.path.join(VERIF, "evidence", f"{pid}.json"), "w"), indent=1, default=str)
+    # evidence/ only ever describes runs against /repo itself; runs against a scratch copy (NUMPOLY_REPO=...) go elsewhere
+    evdir = os.path.join(VERIF, "evidence" if os.path.realpath(REPO) == "/repo" else "evidence_scratch")
+    os.makedirs(evdir, exist_ok=True)
+    json.dump(ev, open(os.path.join(evdir, f"{pid}.json"), "w"), indent=1, default=str)
 
     # ---- verdict
     if n_obl == 0 and spec.get("contracts") and not unsupported:
